@@ -1,6 +1,6 @@
 """C13 Every instruction gets exactly the time its labels say (structural clauses)."""
 from common import Report
-from facts import hir_walk, op_local, op_place, place_local, place_proj
+from facts import MissingAnchor, hir_walk, op_local, op_place, place_local, place_proj
 from rules import arms, flow, codec, visit
 from props.c10 import blocks_of, stmt_exprs, top_calls
 
@@ -10,8 +10,11 @@ EXPLANATION = (
     "touches the time stack.  R-TIME-PAIR: enter/exit calls of the helper are balanced in both visitors that use it.  "
     "R-TIME-COPY: the time written into RawInstr (encode_args) is a plain copy of LowerInstr.stmt_data.time, which is "
     "looked up by the statement's own node id.  R-TIME-CODEC: every instruction format reads the time field with the "
-    "signedness it writes it with (shared with C03 R-CODEC).  R-LABEL-EMIT: LabelEmitter compares time with prev_time in "
-    "both directions plus inequality, uses wrapping_sub for deltas, and has a single diverging exit.  R-RECOG-TIME: "
+    "signedness it writes it with (shared with C03 R-CODEC).  R-LABEL-EMIT: the HIR decision tree of LabelEmitter::emit_offset_and_time_labels_with is "
+    "evaluated over one representative of every ordering of (prev_time, time, 0 and each literal it compares with) - the "
+    "function touches these values only through comparisons and time-prev_time, so the orderings are exhaustive for its "
+    "logic; on every path the emitted `N:` / `+N:` labels applied to prev_time must give `time` (negative times and "
+    "decreases included) and prev_time must be updated; no panicking arithmetic on times.  R-RECOG-TIME: "
     "the three decompile recognisers that merge several instructions into one statement (difficulty switch, two-part "
     "conditional jump, register call) accept only after comparing the times of the merged instructions (the "
     "comparison's branch dominates the accept site and its other edge cannot reach it).  Decides these conditions, not "
@@ -56,6 +59,65 @@ def bracket_check(rep, rule, f, pairs, label):
     return n
 
 
+def _label_emit_orderings(rep, le):
+    """R-LABEL-EMIT by order-abstract evaluation: for every ordering of (prev_time, time, 0 and every literal the
+    function compares with) the labels emitted along every path of the HIR decision tree, applied to prev_time
+    (`N:` sets, `+N:` adds), must give `time`; and prev_time must be `time` afterwards."""
+    from rules import ordeval
+    from facts import hir_walk as walk
+
+    def sp_value(n):
+        # sp!(x) is `Sp { span, value: x }`
+        if isinstance(n, dict) and n.get("k") == "Struct" and n.get("p", "").endswith("span::Sp"):
+            for name, e in n["fs"]:
+                if name == "value":
+                    return e
+        return n
+
+    def event(n, E, env):
+        for x in walk(n):
+            if x is not n and x.get("k") in ("Call", "MCall") and x.get("k") == "Closure":
+                continue
+            if x.get("k") == "Call" and (x.get("f") or "").endswith("StmtKind::AbsTimeLabel"):
+                return ("abs", E.ev(sp_value(x["a"][0]), env))
+            if x.get("k") == "Struct" and x.get("p", "").endswith("StmtKind::RelTimeLabel"):
+                for name, e in x["fs"]:
+                    if name == "delta":
+                        return ("rel", E.ev(sp_value(e), env))
+        return None
+    E = ordeval.Evaluator(le, event)
+    dom = ordeval.domain(le)
+    params = [p.get("n") for p in le.d["hparams"]]
+    if "time" not in params:
+        raise MissingAnchor("parameter `time` of emit_offset_and_time_labels_with")
+    n_case = n_path = 0
+    bad = None
+    undecided = None
+    for a in ordeval.assignments(["time", "self.prev_time"], dom):
+        n_case += 1
+        for env, evs, _ in E.run_block(le.hir, (dict(a), [])):
+            n_path += 1
+            t = a["self.prev_time"]
+            for kind, v in evs:
+                if not isinstance(v, int) or isinstance(v, bool):
+                    undecided = "a time label with a value the evaluator cannot follow (%s)" % kind
+                    continue
+                t = v if kind == "abs" else ordeval.wrap(t + v)
+            after = env.get("self.prev_time")
+            if t != a["time"] and bad is None:
+                bad = "prev_time=%d, time=%d: the emitted labels %s lead to time %d" % (a["self.prev_time"], a["time"], evs, t)
+            elif after != a["time"] and bad is None:
+                bad = "prev_time=%d, time=%d: prev_time is %s after the call (must be the instruction's time)" % (a["self.prev_time"], a["time"], after)
+    if undecided and bad is None:
+        from common import Broken
+        raise Broken("R-LABEL-EMIT: " + undecided)
+    rep.floor("orderings evaluated for label emission", n_case, 25)
+    rep.site(n_path)
+    rep.check(bad is None, "R-LABEL-EMIT", "orderings|labels reproduce the time", le.loc,
+              "%d (prev_time, time) representatives over %s, %d paths: emitted labels always reproduce `time`, prev_time updated" % (n_case, dom, n_path),
+              "label emission does not reproduce the stored time: %s" % bad)
+
+
 def run(db, tier):
     rep = Report("C13", tier, EXPLANATION, RULE)
     for r, t in (("R-TIME-LABEL", "label statements are the only writers of the current time; relative labels wrap"),
@@ -75,8 +137,18 @@ def run(db, tier):
         for v in vs:
             seen[v] = arm
     a = seen.get("ast::StmtKind::AbsTimeLabel")
-    ok = a is not None and any(n.get("k") == "Assign" for n in hir_walk(a["b"])) and not any(
-        (c or "").startswith("core::num::") for c in arms.calls_in(a["b"]))
+    from rules import hirq
+    asg = [n for n in hir_walk(a["b"])] if a is not None else []
+    asg = [n for n in asg if n.get("k") == "Assign"]
+    ok = False
+    if len(asg) == 1:
+        rf = hirq.features(f, asg[0]["r"], {})
+        lf = hirq.features(f, asg[0]["l"], {})
+        # right-hand side: the label's own value, read through fields only (no call, no arithmetic, no literal)
+        bound = set(hirq._bound_names(a["p"]))
+        ok = (not any(t in ("call", "lit") for t, _ in rf) and any(t == "local" and v in bound for t, v in rf)
+              and not any(n.get("k") in ("Binary", "Unary", "If", "Match") for n in hir_walk(asg[0]["r"]))
+              and ("field", "time_stack") in lf and hirq.has_call(lf, "last_mut"))
     rep.check(ok, "R-TIME-LABEL", "AbsTimeLabel|stores", f.loc, "`N:` assigns N to the current time", "the AbsTimeLabel arm is not a plain store of the label value")
     r = seen.get("ast::StmtKind::RelTimeLabel")
     ok = r is not None and "core::num::<impl i32>::wrapping_add" in arms.calls_in(r["b"])
@@ -161,21 +233,12 @@ def run(db, tier):
     # ---------------- R-LABEL-EMIT
     le = db.fn("llir::raise::late::LabelEmitter::emit_offset_and_time_labels_with")
     rep.fn(le)
-    dle = flow.Defs(le)
-    ops = set()
-    for c in flow.comparisons(le, dle):
-        srcs = c["a"] | c["b"]
-        if any(x[0] == "field" and x[2] == "prev_time" for x in srcs) or any(x[0] == "param" for x in srcs):
-            ops.add(c["op"])
-    rep.check({"Lt", "Ne"} <= ops or {"Lt", "Eq"} <= ops or {"Gt", "Ne"} <= ops, "R-LABEL-EMIT", "compares|both-directions", le.loc,
-              "time vs prev_time compared with %s" % sorted(ops), "label emission no longer distinguishes increase / decrease / equal (comparisons: %s)" % sorted(ops))
-    lts = [c for c in flow.comparisons(le, dle) if c["op"] in ("Lt", "Gt")]
-    rep.check(len(lts) >= 3, "R-LABEL-EMIT", "compares|increase-decrease-sign-crossing", le.loc,
-              "%d ordered comparisons (sign crossing, decrease, increase)" % len(lts), "expected ordered comparisons for sign crossing, decrease and increase; found %d" % len(lts))
-    rep.check(bool(flow.calls_to(le, "core::num::<impl i32>::wrapping_sub")), "R-LABEL-EMIT", "delta|wrapping_sub", le.loc, "relative deltas use wrapping_sub",
-              "relative time deltas are not computed with wrapping_sub")
+    _label_emit_orderings(rep, le)
+    n_ovf = sum(1 for b in le.blocks if b["t"]["k"] == "assert" and b["t"]["msg"].startswith("overflow"))
+    rep.check(n_ovf == 0, "R-LABEL-EMIT", "delta|no-overflow-assert", le.loc, "no panicking arithmetic on times (deltas wrap)",
+              "%d panicking arithmetic operation(s) on times in label emission" % n_ovf)
     panics = [t for _, t in le.calls() if t.get("f", "").startswith("core::panicking::")]
-    rep.check(len(panics) == 1, "R-LABEL-EMIT", "single-diverging-exit", le.loc, "one diverging exit (label never placed)", "%d panicking exits in label emission" % len(panics))
+    rep.check(len(panics) <= 1, "R-LABEL-EMIT", "single-diverging-exit", le.loc, "at most one diverging exit (label never placed)", "%d panicking exits in label emission" % len(panics))
 
     # ---------------- R-RECOG-TIME
     for fid in ("llir::raise::recognize::recognize_diff_switch", "llir::raise::recognize::recognize_double_instr_intrinsic",
